@@ -12,7 +12,7 @@ RULE = (
     "Non-trivial = the handler outcome is not a plain successful return, or neighbours ran concurrently; distinct = distinct cells / distinct mixes of outcome kinds"
 )
 ASSUMPTIONS = ["handlers raising BaseException subclasses (CancelledError, KeyboardInterrupt) are outside 'any other exception'"]
-REQUIRED_MONITORS = {"one_final_response": 500, "code_and_payload": 500, "no_leak": 500, "neighbour_unaffected": 100, "later_request": 16, "no_site": 8, "neighbour_transport_failure": 30, "same_reaction_alone": 300, "response_usable": 500, "handler_suppressed": 30, "observable_resource": 60, "late_acks_from_peer": 60, "outcome_behind_unacked_neighbour": 60}
+REQUIRED_MONITORS = {"kept_codeless_response_across_methods": 16, "one_final_response": 500, "code_and_payload": 500, "no_leak": 500, "neighbour_unaffected": 100, "later_request": 16, "no_site": 8, "neighbour_transport_failure": 30, "same_reaction_alone": 300, "response_usable": 500, "handler_suppressed": 30, "observable_resource": 60, "late_acks_from_peer": 60, "outcome_behind_unacked_neighbour": 60}
 EXHAUSTIVE = {"outcome_table": "every outcome kind x 7 methods (+1 unassigned method code) x CON/NON x {before, after} the empty ACK"}
 
 METHODS = [1, 2, 3, 4, 5, 6, 7]
@@ -37,6 +37,8 @@ def outcomes():
         ("return-with-code-4.03", lambda m: (131, b"body")),
         ("return-with-code-5.03", lambda m: (163, b"body")),
         ("return-without-code", lambda m: (default_code(m), b"body")),
+        # a resource that keeps one code-less response and returns the same object for every request, whatever its method
+        ("return-kept-message-without-code", lambda m: (default_code(m), b"kept")),
         ("return-NoResponse-sentinel", lambda m: ("suppressed", None)),
         ("return-with-no_response-option", lambda m: ("suppressed", None)),
         ("return-unserialisable-message", lambda m: (160, b"")),
@@ -129,6 +131,8 @@ def build_site(loop, hlog):
         async def to_message(self):  # (written as a coroutine function by mistake: the call returns a coroutine)
             return aiocoap.Message(code=aiocoap.BAD_REQUEST, payload=MARK.encode())
 
+    KEPT = aiocoap.Message(payload=b"kept")
+
     class Outcome(R.Resource):
         async def _handle(self, request):
             # payload: b"<outcome index>;<delay>;<serial>"
@@ -144,6 +148,8 @@ def build_site(loop, hlog):
                 return aiocoap.Message(code=aiocoap.numbers.codes.Code((int(c[0]) << 5) | int(c[2:])), payload=b"body")
             if name == "return-without-code":
                 return aiocoap.Message(payload=b"body")
+            if name == "return-kept-message-without-code":
+                return KEPT
             if name == "return-unserialisable-message":
                 # a Message all right, but one that cannot be put on the wire (text where bytes belong)
                 return aiocoap.Message(code=aiocoap.CONTENT, payload="text " + secret)
@@ -491,6 +497,21 @@ def run_shard(shard, rep, only=None):
             judge(reqs, res, box, rep, case, table)
             rep.monitor("outcome_behind_unacked_neighbour")
             rep.case(("behind", name, method), nontrivial=True)
+    # ---- the kept code-less response object returned for requests of several methods, one after the other: each gets
+    # the default success code of its own method --------
+    koi = names.index("return-kept-message-without-code")
+    orders = [(4, 3, 2, 1, 5), (1, 4, 3, 1, 2), (3, 1, 4, 2, 5), (2, 5, 1, 4, 3)]
+    for ki, order in enumerate(orders):
+        for typ in (rc.CON, rc.NON):
+            for delay in (0.0, 0.3):
+                case = ["kept", ki, typ, delay]
+                if (ki * 4 + typ * 2 + (1 if delay else 0)) % of != idx or (only is not None and only != case):
+                    continue
+                reqs = [{"peer": 0, "kind": "o", "outcome": koi, "method": m_, "type": typ, "delay": delay, "t": 1.0 * k_, "serial": nxt()} for k_, m_ in enumerate(order)]
+                res, box = run_requests(reqs, shard["seed"] * 613 + ki, rep, case)
+                judge(reqs, res, box, rep, case, table)
+                rep.monitor("kept_codeless_response_across_methods")
+                rep.case(("kept", order, typ, delay), nontrivial=True)
     # ---- concurrent mixes ----
     for mi in range(shard["mixes"]):
         case = ["mix", mi]
